@@ -210,9 +210,11 @@ Alter(op, arg, f) ==
 (*  o, prel           opener, and the passphrase it is given relative to   *)
 (*                    the encryption passphrase                            *)
 (***************************************************************************)
-PassRels   == {"same", "other", "empty", "ext", "ext0", "trunc", "bit"}
+PassRels   == {"same", "other", "empty", "ext", "ext0", "trunc", "bit", "mid", "tail"}
+             \* bit / mid / tail: one byte of the passphrase changed at its start / in its middle / at its end: every byte
+             \* of a passphrase of any length matters
 PassId(r)  == IF r = "same" THEN "p0" ELSE r              \* every other relation is another passphrase
-RelOk(penc, r) == penc = "empty" => r \notin {"empty", "trunc", "bit"}
+RelOk(penc, r) == penc = "empty" => r \notin {"empty", "trunc", "bit", "mid", "tail"}
 
 V(m, c, prof, penc, op, arg, o, prel) ==
     [m |-> m, c |-> c, prof |-> prof, penc |-> penc, op |-> op, arg |-> arg, o |-> o, prel |-> prel]
@@ -224,7 +226,7 @@ PlainAlts   == {<<"body", a>> : a \in BodyAlts}
 
 BigProfs   == IF Thorough THEN {"min", "mid", "par255"} ELSE {"min", "mid"}
 DefProfs   == {"def32"} \cup (IF Def64 THEN {"def64"} ELSE {})
-PEncs      == IF Thorough THEN {"ascii", "empty", "binary", "long"} ELSE {"ascii", "empty", "binary"}
+PEncs      == {"ascii", "empty", "binary", "long"}        \* long: 300 bytes
 
 \* A  every alteration of an encrypted file, right passphrase, opened by Decrypt...
 AltsA(c) == {<<"none", "-">>} \cup EncAlts \cup AnyFileAlts \cup BannerSwaps("enc", c)
